@@ -116,7 +116,7 @@ def provenance(ctx, fi, expr, depth=5, _follow=2):
         elif o.kind == "attr":
             t = src(n)
             if t.endswith("._schema") or t.endswith(".schema") \
-                    or t.endswith("._parent"):
+                    or t.endswith("._base_schema") or t.endswith("._parent"):
                 kinds.add("under-construction")
             else:
                 kinds.add("other:" + t)
